@@ -46,6 +46,7 @@
 From Ark Require Import Model.Base Model.Mask Model.Pool Model.Util Model.World Model.Run.
 From Ark Require Import Proofs.WF Proofs.StorageA Proofs.StorageBDefs Proofs.StorageB_sb2 Proofs.ViewProofs Proofs.CacheProofs Proofs.BatchProofs Proofs.BatchOps Proofs.StorageD Properties.Common.
 From Ark Require Import Proofs.Rel2Defs Proofs.Rel2Maint Proofs.Rel2Hist Proofs.Rel2Cache Proofs.Rel2Batch Proofs.Rel2BatchNew Proofs.Rel2BatchExchange Proofs.Rel2BatchSetRel Proofs.Rel2BatchHist.
+From Ark Require Import Proofs.Rel2HistQ Proofs.Rel2HistQL Proofs.Rel2HistR Proofs.Rel2HistAll Proofs.Rel2HistAllL Proofs.Rel2HistAllR.
 
 Theorem C06_table_move_is_per_entity_exchange : forall s otid ntid ot nt oa na, St s -> otid <> ntid ->
   nth_error (w_tables s) otid = Some ot -> nth_error (w_tables s) ntid = Some nt ->
@@ -415,7 +416,73 @@ Theorem C06_rel_batch_step_any_arguments :
           r2h_leak (RecordSet.set w_log (fun _ : list (list Z) => []) s) o).
 Proof. exact step_inv2B_storage. Qed.
 
-Definition C06_all := (C06_rel_remove_entities, C06_rel_remove_entities_both_outcomes, C06_rel_new_batch, C06_rel_exchange_batch, C06_rel_exchange_batch_any_arguments, C06_rel_set_relations_batch, C06_rel_set_relations_batch_both_outcomes, C06_rel_invariant_after_every_history_with_batches, C06_rel_batch_step_any_arguments, C06_selection_exact_after_every_history, C06_table_move_is_per_entity_exchange, C06_destination_mask, C06_single_exchange,
+(** ** The batch operations in the merged class (package U): histories with filters, registrations, queries, LOCKED states
+    (stage 1) and Reset (stage 2). On a locked world a batch step changes nothing; the lock leaks of Rel2BatchHist do not break
+    the invariant (it has no "unlocked" clause): no [r2h_safe] side condition. After a Reset the FOREIGN handles in relation-target
+    position must be proper (and within the pool for ExchangeBatch): [r2u_foreign_ok]. *)
+
+Theorem C06_rel_batch_step_locked_or_unlocked :
+  forall (debug wd : bool) (s : W) (n : nat) (line : list Z) (o : op),
+         InvAll s n ->
+         n + r2h_created o + 4 < 2 ^ 31 ->
+         decode_op line = Some o ->
+         r2h_batch_op o = true ->
+         (forall c : nat, In c (r2h_op_ids o) -> c < length (w_reg s)) ->
+         let s' := fst (step debug wd s line) in
+         InvAll s' (n + S (r2h_created o)) /\
+         w_reg s' = w_reg s /\
+         (exists es : list ent,
+            w_issued s' = w_issued s ++ es /\ (forall e : ent, In e es -> live s' e = true /\ live s e = false)) /\
+         (is_locked s = true -> s' = RecordSet.set w_log (fun _ : list (list Z) => []) s) /\
+         (is_locked s = false ->
+          is_locked s' = false \/
+          is_err (step_op debug o (RecordSet.set w_log (fun _ : list (list Z) => []) s)) = true /\
+          r2h_leak (RecordSet.set w_log (fun _ : list (list Z) => []) s) o).
+Proof. exact step_inv_all_batch. Qed.
+
+Theorem C06_rel_invariant_after_every_history_merged :
+  forall (c : script_cfg) (lines : list (list Z)),
+         cfg_ok2 c ->
+         Forall (rel_all_line (sc_kinds c)) lines ->
+         r2h_total lines + 4 < 2 ^ 31 -> InvAll (exec c lines) (r2h_total lines).
+Proof. exact reachable_inv_all. Qed.
+
+Theorem C06_rel_batch_step_after_resets :
+  forall (debug wd : bool) (s : W) (n k : nat) (line : list Z) (o : op),
+         InvAllR s n k ->
+         n + r2h_created o + 4 < 2 ^ 31 ->
+         decode_op line = Some o ->
+         r2h_batch_op o = true ->
+         (forall c : nat, In c (r2h_op_ids o) -> c < length (w_reg s)) ->
+         (is_locked s = false -> r2u_foreign_ok k s o) ->
+         let s' := fst (step debug wd s line) in
+         InvAllR s' (n + S (r2h_created o)) k /\
+         w_reg s' = w_reg s /\
+         (exists es : list ent,
+            w_issued s' = w_issued s ++ es /\ (forall e : ent, In e es -> live s' e = true /\ live s e = false)) /\
+         (is_locked s = true -> s' = RecordSet.set w_log (fun _ : list (list Z) => []) s) /\
+         (is_locked s = false ->
+          is_locked s' = false \/
+          is_err (step_op debug o (RecordSet.set w_log (fun _ : list (list Z) => []) s)) = true /\
+          r2h_leak (RecordSet.set w_log (fun _ : list (list Z) => []) s) o).
+Proof. exact step_inv_allR_batch. Qed.
+
+Theorem C06_rel_invariant_after_every_history_merged_with_resets :
+  forall (c : script_cfg) (lines : list (list Z)),
+         cfg_ok2 c ->
+         rel_allR_hist (sc_debug c) (sc_kinds c) (init_world c, 0) lines ->
+         r2h_total lines + 4 < 2 ^ 31 -> InvAllR (exec c lines) (r2h_total lines) (r2r_epoch_of c lines).
+Proof. exact reachable_inv_allR. Qed.
+
+Theorem C06_rel_lock_bookkeeping_after_every_history_merged :
+  forall (c : script_cfg) (lines : list (list Z)),
+         cfg_ok2 c ->
+         Forall (rel_all_line_safe (sc_kinds c)) lines ->
+         r2h_total lines + 4 < 2 ^ 31 -> InvAll (exec c lines) (r2h_total lines) /\ LQ (exec c lines).
+Proof. exact reachable_inv_all_LQ. Qed.
+
+Definition C06_all := (C06_rel_lock_bookkeeping_after_every_history_merged, C06_rel_batch_step_locked_or_unlocked, C06_rel_invariant_after_every_history_merged, C06_rel_batch_step_after_resets, C06_rel_invariant_after_every_history_merged_with_resets,
+  C06_rel_remove_entities, C06_rel_remove_entities_both_outcomes, C06_rel_new_batch, C06_rel_exchange_batch, C06_rel_exchange_batch_any_arguments, C06_rel_set_relations_batch, C06_rel_set_relations_batch_both_outcomes, C06_rel_invariant_after_every_history_with_batches, C06_rel_batch_step_any_arguments, C06_selection_exact_after_every_history, C06_table_move_is_per_entity_exchange, C06_destination_mask, C06_single_exchange,
   C06_batch_creation, C06_new_entities, C06_new_entities_needs_a_lock_bit,
   C06_exchange_batch, C06_remove_entities, C06_new_batch, C06_selection_uncached, C06_selection_cached,
   C06_filter_exists_is_not_enough, C06_whole_ops_nonvacuous).
